@@ -33,6 +33,9 @@ type Wire struct {
 	MaxDepth int
 	// ConstArith makes arithmetic with a constant operand transparent (x/1e6, x+1).
 	ConstArith bool
+	// FollowReturns, if non-nil and true for a statically resolved callee, makes the
+	// chase continue into that function's returned values.
+	FollowReturns func(callee string) bool
 }
 
 func (w *Wire) Origins(v ssa.Value) []string {
@@ -207,6 +210,20 @@ func (w *Wire) call(c *ssa.Call, idx int, depth int, seen map[ssa.Value]bool, ou
 	if ai, ok := w.Through[cal]; ok && ai < len(c.Call.Args) {
 		w.chase(c.Call.Args[ai], depth, seen, out)
 		return
+	}
+	if w.FollowReturns != nil && w.FollowReturns(cal) {
+		if sc := c.Call.StaticCallee(); sc != nil && len(sc.Blocks) > 0 {
+			n := 0
+			for _, e := range Exits(sc) {
+				if idx < len(e.Vals) {
+					n++
+					w.chase(e.Vals[idx], depth+1, seen, out)
+				}
+			}
+			if n > 0 {
+				return
+			}
+		}
 	}
 	out[fmt.Sprintf("call:%s#%d", cal, idx)] = true
 }
